@@ -134,6 +134,7 @@ void registerModels(std::vector<Case>&);
 void registerKernels(std::vector<Case>&);
 void registerData(std::vector<Case>&);
 void registerOpt(std::vector<Case>&);
+void registerExtra(std::vector<Case>&);
 
 } // namespace c18
 #endif
